@@ -25,6 +25,7 @@ type verifLitmus struct {
 	n    int
 	m    map[string]int
 	flag atomic.Int32
+	cnt  int64
 }
 
 // Run runs the named program and returns its observable outcome.
@@ -258,6 +259,17 @@ func Run(name string) string {
 		verifCount++
 		l.mu.Unlock()
 		return seen
+	case "race-atomic-plain": // an atomic add outside the lock, a plain read of the same word inside it
+		wg.Add(2)
+		go func() { defer wg.Done(); atomic.AddInt64(&l.cnt, 1) }()
+		go func() { defer wg.Done(); l.mu.Lock(); _ = l.cnt; l.mu.Unlock() }()
+		wg.Wait()
+	case "norace-atomic-atomic": // atomic add and atomic load of one word from two goroutines; a plain read after both joined
+		wg.Add(2)
+		go func() { defer wg.Done(); atomic.AddInt64(&l.cnt, 1) }()
+		go func() { defer wg.Done(); _ = atomic.LoadInt64(&l.cnt) }()
+		wg.Wait()
+		_ = l.cnt
 	case "race-plain": // two unsynchronised writers
 		for i := 0; i < 2; i++ {
 			wg.Add(1)
